@@ -1171,6 +1171,11 @@ func TrickyShapes() []*Shape {
 			&Shape{Kind: KObject, ID: "Mid", Struct: "P3", Props: []*Prop{p("inner", ref("Leaf")), p("pinner", ref("Leaf")), p("n", &Shape{Kind: KInt})}},
 			&Shape{Kind: KObject, ID: "Leaf", Struct: "P1", Props: []*Prop{{Name: "a", T: &Shape{Kind: KInt}, Default: jsonText(int64(10))}, {Name: "b", T: str(), Default: jsonText("fast")},
 				p("c", &Shape{Kind: KFloat}), p("d", &Shape{Kind: KBool})}}),
+		// finite defaults that pass through the same defaulted object twice (side by side, and as list items)
+		scope("Twice", obj("Twice", &Prop{Name: "pair", T: ref("Pair"), Default: jsonText(map[string]any{"p": map[string]any{}, "q": map[string]any{}})}),
+			obj("Pair", p("p", ref("Leaf")), p("q", ref("Leaf"))), obj("Leaf", &Prop{Name: "z", T: &Shape{Kind: KInt}, Default: jsonText(int64(1))})),
+		scope("Items", obj("Items", &Prop{Name: "items", T: &Shape{Kind: KList, Items: ref("Leaf")}, Default: jsonText([]any{map[string]any{}, map[string]any{}})}),
+			obj("Leaf", &Prop{Name: "z", T: &Shape{Kind: KInt}, Default: jsonText(int64(1))})),
 		// two-property recursive object: the shorthand must not apply
 		scope("N", obj("N", p("v", &Shape{Kind: KInt}), p("next", ref("N")))),
 	}
